@@ -20,7 +20,7 @@ RULES = {
     "R3": "the emission of update_buffer as a truth table over (alpha, upper transparent, lower transparent, halves equal), read off its symbolic output shape: both transparent -> SGR_DEFAULT + blanks; one half transparent -> SGR_DEFAULT + FG of the other half + that half's glyph; opaque -> BG from the lower cluster (+ FG of the upper one and the upper-half glyph unless equal); the kitty workaround tests and nudges the background cluster",
     "R4": "alpha classification: the text renderer requests round_alpha=True and derives `alpha` from the returned mode; _get_render_data rounds the "
           "threshold to 0..255, classifies with strict `<` (at or above is opaque) and composites over the terminal background under state-only "
-          "conditions (no data-dependent shortcut); the background an image is composited over is the given colour or the terminal background with an opaque (string) fallback, never a numeric fill; shared with C19.R2: the transparency field of a format specifier is classified by the grammar's groups; the source image is read-only: no in-place edit of `<img>.info` / `.palette` where <img> can be the source object; nor is the image object modified in place (draft / paste / putalpha / thumbnail ...) where it can be the source, in _get_render_data and in the _render_image methods; resize(size, BOX) takes no reducing_gap / box; the image is resized as a whole (the receiver of resize is the pipeline's image, not a channel or another conversion of it)",
+          "conditions (no data-dependent shortcut); the background an image is composited over is the given colour or the terminal background with an opaque (string) fallback, never a numeric fill; shared with C19.R2: the transparency field of a format specifier is classified by the grammar's groups; the source image is read-only: no in-place edit of `<img>.info` / `.palette` where <img> can be the source object; nor is the image object modified in place (draft / paste / putalpha / thumbnail ...) where it can be the source, in _get_render_data and in the _render_image methods; resize(size, BOX) takes no reducing_gap / box; the image is resized as a whole (the receiver of resize is the pipeline's image, not a channel or another conversion of it); the resize is skipped only when the image about to be resized already has the target size (its own .size compared with size)",
 }
 BL, CM = "image/block.py", "image/common.py"
 SWAP = {"px1": "px2", "px2": "px1", "cluster1": "cluster2", "cluster2": "cluster1", "a1": "a2", "a2": "a1", "a_cluster1": "a_cluster2", "a_cluster2": "a_cluster1",
